@@ -12,7 +12,7 @@ use tokio::sync::broadcast;
 use tokio::sync::mpsc::{self, UnboundedReceiver, UnboundedSender};
 
 use std::collections::HashSet;
-use std::sync::{Arc, RwLock};
+use std::sync::{Arc, Mutex, RwLock};
 
 use scru128::Scru128Id;
 
@@ -178,6 +178,7 @@ pub struct Store {
     contexts: Arc<RwLock<HashSet<Scru128Id>>>,
     broadcast_tx: broadcast::Sender<Frame>,
     gc_tx: UnboundedSender<GCTask>,
+    append_lock: Arc<Mutex<()>>,
     #[cfg(feature = "verif")]
     verif: crate::verif::Hooks,
 }
@@ -223,6 +224,7 @@ impl Store {
             contexts: Arc::new(RwLock::new(contexts)),
             broadcast_tx,
             gc_tx,
+            append_lock: Arc::new(Mutex::new(())),
             #[cfg(feature = "verif")]
             verif: crate::verif::Hooks::default(),
         };
@@ -564,6 +566,9 @@ impl Store {
     pub fn append(&self, mut frame: Frame) -> Result<Frame, crate::error::Error> {
         #[cfg(feature = "verif")]
         self.verif.point("append.enter", None);
+        // Assign the id, commit and broadcast under one lock: with concurrent appenders, frames
+        // must become visible (to readers and to subscribers) in increasing id order.
+        let _append_guard = self.append_lock.lock().unwrap();
         frame.id = scru128::new();
         #[cfg(feature = "verif")]
         self.verif.point("append.id", Some(&frame));
